@@ -14,7 +14,7 @@ trap cleanup EXIT
 mkdir -p /verif/seeded/$SID
 cp $SRC/patch.diff /verif/seeded/$SID/patch.diff
 # the demonstrations written by the sub-agents pin their own worktree path; make that check path-independent
-sed -e "s#^assert holopy.__file__.startswith(.*#pass  \# (path pin removed: run with PYTHONPATH=<worktree of /repo>)#" $SRC/demo.py > /verif/seeded/$SID/demo.py
+sed -E -e "s#^assert (holopy|hp)\.__file__\.startswith\(.*#pass  \# (path pin removed: run with PYTHONPATH=<worktree of /repo>)#" $SRC/demo.py > /verif/seeded/$SID/demo.py
 [ -f $SRC/notes.md ] && cp $SRC/notes.md /verif/seeded/$SID/notes.md
 mkdir -p $WT/seeded_out/x; cp /verif/seeded/$SID/demo.py $WT/seeded_out/x/demo.py
 ( cd $WT && PYTHONPATH=$WT timeout 900 /venv/bin/python seeded_out/x/demo.py >/dev/null 2>&1 ); CLEAN=$?
